@@ -42,20 +42,21 @@ Record Core (stop : bool) (srcs0 : list src) (s : mst) : Prop := {
   V_cons : forall i, i < length srcs0 -> items0 srcs0 i = proj i (m_out s) ++ mid s i ++ cur_items s i;
   V_tags : forall p, In p (m_out s) -> fst p < length srcs0;
   V_end : forall i, i < length srcs0 ->
-          cur_end s i = end0 srcs0 i \/ exists e, end0 srcs0 i = Some e /\ tk s i = TFinished (RErr e);
+          cur_end s i = end0 srcs0 i \/ exists e, tk s i = TFinished (RErr e);
+  V_err : forall i e, i < length srcs0 -> tk s i = TFinished (RErr e) -> end0 srcs0 i = Some e;
   V_stop : forall i, i < length srcs0 -> tk s i = TFinished RStop -> cur_items s i = [] /\ cur_end s i = None;
   V_inact : forall i, i < length srcs0 -> act s i = false ->
           cur_items s i = [] /\ end0 srcs0 i = None /\ tk s i = TNone;
-  V_none : forall i, i < length srcs0 -> tk s i = TNone -> act s i = false \/ exists rest, m_phase s = PYield i rest;
-  V_rest : forall cur rest, m_phase s = PYield cur rest ->
-          cur < length srcs0 /\ tk s cur = TNone /\ ~ In cur (map fst rest) /\ NoDup (map fst rest) /\
-          forall j v, In (j, v) rest -> j < length srcs0 /\ tk s j = TFinished (RItem v);
   V_exc : forall e, m_exc s = Some e -> exists i, i < length srcs0 /\ end0 srcs0 i = Some e;
   V_stopped : m_stopped s = true -> stop = true
 }.
 
 Record MInv (stop : bool) (srcs0 : list src) (s : mst) : Prop := {
   V_core : Core stop srcs0 s;
+  V_none : forall i, i < length srcs0 -> tk s i = TNone -> act s i = false \/ exists rest, m_phase s = PYield i rest;
+  V_rest : forall cur rest, m_phase s = PYield cur rest ->
+          cur < length srcs0 /\ tk s cur = TNone /\ ~ In cur (map fst rest) /\ NoDup (map fst rest) /\
+          forall j v, In (j, v) rest -> j < length srcs0 /\ tk s j = TFinished (RItem v);
   V_endp : m_phase s = PEnd -> has_task s = false \/ m_exc s <> None \/ m_stopped s = true;
   V_wait : m_phase s = PWait -> has_task s = true
 }.
@@ -89,13 +90,14 @@ Proof.
   - intros i Hi. unfold mid. rewrite T by auto. reflexivity.
   - intros p [].
   - intros i Hi. left. reflexivity.
+  - intros i e Hi H. rewrite T in H by auto. discriminate.
   - intros i Hi H. rewrite T in H by auto. discriminate.
   - intros i Hi H. exfalso. unfold act, minit in H; cbn in H.
     rewrite nth_map_const in H by auto. discriminate.
+  - cbn. discriminate.
+  - cbn. discriminate.
   - intros i Hi H. rewrite T in H by auto. discriminate.
   - intros cur rest H. cbn in H. destruct srcs0; discriminate.
-  - cbn. discriminate.
-  - cbn. discriminate.
   - cbn. destruct srcs0; [left; reflexivity|discriminate].
   - cbn. destruct srcs0 as [|a r]; [discriminate|]. intros _. reflexivity.
 Qed.
@@ -103,15 +105,17 @@ Qed.
 (* ---------- primitive updates preserve the core invariant ---------- *)
 Definition item_of (t : tstate) : list Z := match t with TFinished (RItem v) => [v] | _ => [] end.
 
-(* the pending task of source i finishes: its task and its remaining behaviour change *)
-Lemma core_finish stop srcs0 s i t' r' :
-  Core stop srcs0 s -> i < length srcs0 -> tk s i = TRunning -> t' <> TNone ->
-  item_of t' ++ s_items r' = cur_items s i ->
-  (s_end r' = cur_end s i \/ exists e, cur_end s i = Some e /\ t' = TFinished (RErr e)) ->
+(* task i and the remaining behaviour of source i change; nothing else *)
+Lemma core_task stop srcs0 s i t' r' :
+  Core stop srcs0 s -> i < length srcs0 -> act s i = true ->
+  item_of t' ++ s_items r' = mid s i ++ cur_items s i ->
+  (s_end r' = cur_end s i \/ exists e, t' = TFinished (RErr e)) ->
+  (forall e, t' = TFinished (RErr e) -> end0 srcs0 i = Some e) ->
   (t' = TFinished RStop -> s_items r' = [] /\ s_end r' = None) ->
+  ((exists e, tk s i = TFinished (RErr e)) -> exists e, t' = TFinished (RErr e)) ->
   Core stop srcs0 (mkM (upd i r' (m_srcs s)) (m_active s) (upd i t' (m_tasks s)) (m_phase s) (m_exc s) (m_stopped s) (m_out s)).
 Proof.
-  intros [[L1 [L2 L3]] Vc Vt Ve Vs Vi Vn Vr Vx Vp] Hi Ht Hn Hit Hend Hstop.
+  intros [[L1 [L2 L3]] Vc Vt Ve Vr Vs Vi Vx Vp] Hi Ha Hit Hend Herr Hstop Hkeep.
   assert (T : forall j, tk (mkM (upd i r' (m_srcs s)) (m_active s) (upd i t' (m_tasks s)) (m_phase s) (m_exc s) (m_stopped s) (m_out s)) j
               = if j =? i then t' else tk s j).
   { intro j. unfold tk; cbn [m_tasks]. destruct (Nat.eqb_spec j i).
@@ -124,34 +128,498 @@ Proof.
   constructor; unfold mid, cur_items, cur_end, act in *; cbn [m_srcs m_active m_phase m_exc m_stopped m_out]; auto.
   - cbn. rewrite !upd_len. auto.
   - intros j Hj. rewrite T, S. destruct (Nat.eqb_spec j i); [subst|apply Vc; auto].
-    rewrite (Vc i Hi), Ht. cbn [app]. fold (item_of t'). rewrite Hit. reflexivity.
+    rewrite (Vc i Hi). fold (item_of t'). rewrite Hit. reflexivity.
   - intros j Hj. rewrite T, S. destruct (Nat.eqb_spec j i); [subst|apply Ve; auto].
-    destruct (Ve i Hi) as [E|(e & _ & E)]; [|congruence].
-    destruct Hend as [H|(e & H1 & H2)]; [left; congruence|right; exists e; split; congruence].
+    destruct Hend as [H|H]; [|right; auto]. destruct (Ve i Hi) as [E|E]; [left; congruence|right; auto].
+  - intros j e Hj. rewrite T. destruct (Nat.eqb_spec j i); [subst; auto|apply Vr; auto].
   - intros j Hj. rewrite T, S. destruct (Nat.eqb_spec j i); [subst; auto|apply Vs; auto].
-  - intros j Hj Ha. rewrite T, S. destruct (Nat.eqb_spec j i); [subst|apply Vi; auto].
-    destruct (Vi i Hi Ha) as (_ & _ & E). congruence.
-  - intros j Hj. rewrite T. destruct (Nat.eqb_spec j i); [subst; congruence|apply Vn; auto].
+  - intros j Hj Hja. rewrite T, S. destruct (Nat.eqb_spec j i); [subst; congruence|apply Vi; auto].
+Qed.
+
+Lemma upd_same {A} i (l : list A) d : upd i (nth i l d) l = l.
+Proof. revert i; induction l as [|y l IH]; intros [|i]; cbn; auto. f_equal. apply IH. Qed.
+
+Lemma act_of_task stop srcs0 s i : Core stop srcs0 s -> i < length srcs0 -> tk s i <> TNone -> act s i = true.
+Proof.
+  intros HC Hi Ht. destruct (act s i) eqn:E; auto. destruct (V_inact _ _ _ HC i Hi E) as (_ & _ & H). congruence.
+Qed.
+
+(* only the task entry of source i changes *)
+Lemma core_task_only stop srcs0 s i t' :
+  Core stop srcs0 s -> i < length srcs0 -> act s i = true ->
+  item_of t' = mid s i ->
+  (forall e, t' = TFinished (RErr e) -> end0 srcs0 i = Some e) ->
+  (t' = TFinished RStop -> cur_items s i = [] /\ cur_end s i = None) ->
+  ((exists e, tk s i = TFinished (RErr e)) -> exists e, t' = TFinished (RErr e)) ->
+  Core stop srcs0 (set_tasks s (upd i t' (m_tasks s))).
+Proof.
+  intros HC Hi Ha Hit Herr Hstop Hkeep.
+  replace (set_tasks s (upd i t' (m_tasks s)))
+    with (mkM (upd i (nth i (m_srcs s) src_dflt) (m_srcs s)) (m_active s) (upd i t' (m_tasks s))
+              (m_phase s) (m_exc s) (m_stopped s) (m_out s))
+    by (unfold set_tasks; rewrite upd_same; reflexivity).
+  apply core_task; auto. fold (cur_items s i). rewrite Hit. reflexivity.
+Qed.
+
+Lemma tk_set_tasks s i t' j : i < length (m_tasks s) ->
+  tk (set_tasks s (upd i t' (m_tasks s))) j = if j =? i then t' else tk s j.
+Proof.
+  intro Hi. unfold tk, set_tasks; cbn [m_tasks]. destruct (Nat.eqb_spec j i).
+  - subst. apply nth_upd_same; auto.
+  - apply nth_upd_other; auto.
+Qed.
+
+(* ---------- finish ---------- *)
+Lemma finish_shape s i :
+  finish s i = s \/
+  (tk s i = TRunning /\ exists t' r', t' <> TNone /\
+   finish s i = mkM (upd i r' (m_srcs s)) (m_active s) (upd i t' (m_tasks s)) (m_phase s) (m_exc s) (m_stopped s) (m_out s)).
+Proof.
+  unfold finish, task_of_src. fold (tk s i). destruct (tk s i) eqn:Ht; auto. right. split; auto.
+  destruct (s_items (nth i (m_srcs s) src_dflt)); [destruct (s_end (nth i (m_srcs s) src_dflt))|].
+  - eexists _, _. split; [|reflexivity]. discriminate.
+  - exists (TFinished RStop), (nth i (m_srcs s) src_dflt). split; [discriminate|].
+    unfold set_tasks. rewrite upd_same. reflexivity.
+  - eexists _, _. split; [|reflexivity]. discriminate.
+Qed.
+
+Lemma finish_inv stop srcs0 s i : MInv stop srcs0 s -> MInv stop srcs0 (finish s i).
+Proof.
+  intros [HC Vn Vr Ve Vw].
+  assert (HC' : Core stop srcs0 (finish s i)).
+  { unfold finish, task_of_src. fold (tk s i). destruct (tk s i) eqn:Ht; [exact HC| |exact HC].
+    destruct (Nat.ltb_spec i (length srcs0)) as [Hi|Hi].
+    2:{ exfalso. destruct (V_len _ _ _ HC) as (_ & _ & L). unfold tk in Ht. rewrite nth_overflow in Ht by lia. discriminate. }
+    assert (Ha : act s i = true) by (eapply act_of_task; eauto; congruence).
+    assert (Hm : mid s i = []) by (unfold mid; rewrite Ht; reflexivity).
+    assert (Hne : ~ exists e, tk s i = TFinished (RErr e)) by (intros (e & E); congruence).
+    destruct (V_end _ _ _ HC i Hi) as [Hend|Hend]; [|contradiction].
+    destruct (s_items (nth i (m_srcs s) src_dflt)) as [|v r] eqn:Hit.
+    - destruct (s_end (nth i (m_srcs s) src_dflt)) as [e|] eqn:He.
+      + apply core_task; auto; try discriminate; unfold cur_items, cur_end in *; rewrite ?Hit, ?He, ?Hm; cbn; eauto;
+          try (intros e' [= <-]; congruence); try tauto.
+      + apply core_task_only; auto; try discriminate; unfold cur_items, cur_end; rewrite ?Hit, ?He; auto; try tauto.
+    - apply core_task; auto; try discriminate; unfold cur_items, cur_end in *; rewrite ?Hit, ?Hm; cbn; auto; try tauto. }
+  destruct (finish_shape s i) as [E|(Ht & t' & r' & Hne & E)]; [rewrite E; constructor; auto|].
+  destruct (V_len _ _ _ HC) as (_ & _ & L3).
+  assert (Hi : i < length (m_tasks s)).
+  { destruct (Nat.ltb_spec i (length (m_tasks s))); auto. unfold tk in Ht. rewrite nth_overflow in Ht by auto. discriminate. }
+  assert (T : forall j, tk (finish s i) j = if j =? i then t' else tk s j).
+  { intro j. rewrite E. unfold tk; cbn [m_tasks]. destruct (Nat.eqb_spec j i).
+    - subst. apply nth_upd_same; auto.
+    - apply nth_upd_other; auto. }
+  constructor; auto; unfold act in *; rewrite E in *; cbn [m_phase m_exc m_stopped m_active] in *.
+  - intros j Hj Hjt. rewrite T in Hjt. destruct (Nat.eqb_spec j i); [congruence|]. apply Vn; auto.
   - intros cur rest Hp. destruct (Vr cur rest Hp) as (a & b & c & d & e). repeat split; auto.
     + rewrite T. destruct (Nat.eqb_spec cur i); [subst; congruence|auto].
     + apply (e j v H).
-    + rewrite T. destruct (Nat.eqb_spec j i); [subst|apply (e j v H)].
-      destruct (e i v H) as [_ E]. congruence.
+    + rewrite T. destruct (Nat.eqb_spec j i); [subst|apply (e j v H)]. destruct (e i v H). congruence.
+  - intros Hp. destruct (Ve Hp) as [H|H]; auto. exfalso. pose proof (has_task_false s H i). congruence.
+  - intros _. apply (has_task_true _ i); [cbn; rewrite upd_len; auto|]. rewrite T, Nat.eqb_refl. auto.
 Qed.
 
-Lemma finish_core stop srcs0 s i : Core stop srcs0 s -> Core stop srcs0 (finish s i).
+Lemma NoDup_snoc_nat (i : nat) ws : NoDup ws -> ~ In i ws -> NoDup (ws ++ [i]).
 Proof.
-  intro HC. unfold finish, task_of_src. fold (tk s i). destruct (tk s i) eqn:Ht; [exact HC| |exact HC].
-  destruct (Nat.ltb_spec i (length srcs0)) as [Hi|Hi].
-  2:{ exfalso. destruct (V_len _ _ _ HC) as (_ & _ & L). unfold tk in Ht. rewrite nth_overflow in Ht by lia. discriminate. }
-  destruct (s_items (nth i (m_srcs s) src_dflt)) as [|v r] eqn:Hit.
-  - destruct (s_end (nth i (m_srcs s) src_dflt)) as [e|] eqn:He.
-    + apply core_finish; auto; try discriminate; unfold cur_items, cur_end; rewrite ?Hit, ?He; cbn; eauto.
-    + replace (set_tasks s (upd i (TFinished RStop) (m_tasks s)))
-        with (mkM (upd i (nth i (m_srcs s) src_dflt) (m_srcs s)) (m_active s) (upd i (TFinished RStop) (m_tasks s))
-                  (m_phase s) (m_exc s) (m_stopped s) (m_out s)).
-      2:{ unfold set_tasks. f_equal. clear. generalize (m_srcs s). intro l. revert i.
-          induction l as [|y l IH]; intros [|i]; cbn; auto. f_equal. apply IH. }
-      apply core_finish; auto; try discriminate; unfold cur_items, cur_end; rewrite ?Hit, ?He; cbn; auto.
-  - apply core_finish; auto; try discriminate; unfold cur_items, cur_end; rewrite ?Hit; cbn; auto.
+  induction 1 as [|x ws Hx Hn IH]; cbn; intro Hi.
+  - constructor; auto. constructor.
+  - constructor.
+    + intro H. apply in_app_or in H. destruct H as [H|[H|[]]]; auto.
+    + apply IH. auto.
 Qed.
+
+Lemma NoDup_app_nat (a b : list nat) : NoDup a -> NoDup b -> (forall x, In x a -> In x b -> False) -> NoDup (a ++ b).
+Proof.
+  induction 1 as [|x a Hx Ha IH]; cbn; auto. intros Hb Hd. constructor.
+  - intro H. apply in_app_or in H. destruct H; auto. eapply Hd; eauto.
+  - apply IH; auto. intros y Hy. apply Hd. auto.
+Qed.
+
+(* ---------- the other primitive updates ---------- *)
+Definition Quiet (srcs0 : list src) (s : mst) : Prop :=
+  forall i, i < length srcs0 -> tk s i = TNone -> act s i = false.
+
+Definition CG (srcs0 : list src) (s : mst) (completed : list (nat * Z)) : Prop :=
+  NoDup (map fst completed) /\ forall j v, In (j, v) completed -> j < length srcs0 /\ tk s j = TFinished (RItem v).
+
+Lemma core_same stop srcs0 s s' :
+  Core stop srcs0 s -> m_srcs s' = m_srcs s -> m_active s' = m_active s -> m_tasks s' = m_tasks s ->
+  m_out s' = m_out s -> (forall e, m_exc s' = Some e -> m_exc s = Some e \/ exists i, i < length srcs0 /\ end0 srcs0 i = Some e) ->
+  (m_stopped s' = true -> m_stopped s = true \/ stop = true) -> Core stop srcs0 s'.
+Proof.
+  intros [L Vc Vt Ve Vr Vs Vi Vx Vp] E1 E2 E3 E4 Hx Hp.
+  constructor; unfold mid, tk, act, cur_items, cur_end in *; rewrite ?E1, ?E2, ?E3, ?E4; auto.
+  - intros e He. destruct (Hx e He); auto.
+  - intro H. destruct (Hp H); auto.
+Qed.
+
+(* `next_item_tasks.pop(i); active_generators.pop(i)` for a source that raised StopAsyncIteration *)
+Lemma core_remove stop srcs0 s i :
+  Core stop srcs0 s -> i < length srcs0 -> tk s i = TFinished RStop ->
+  Core stop srcs0 (mkM (m_srcs s) (upd i false (m_active s)) (upd i TNone (m_tasks s)) (m_phase s) (m_exc s) (m_stopped s) (m_out s)).
+Proof.
+  intros [[L1 [L2 L3]] Vc Vt Ve Vr Vs Vi Vx Vp] Hi Ht.
+  assert (T : forall j, nth j (upd i TNone (m_tasks s)) TNone = if j =? i then TNone else tk s j).
+  { intro j. destruct (Nat.eqb_spec j i); [subst; apply nth_upd_same; lia|apply nth_upd_other; auto]. }
+  assert (A : forall j, nth j (upd i false (m_active s)) false = if j =? i then false else act s j).
+  { intro j. destruct (Nat.eqb_spec j i); [subst; apply nth_upd_same; lia|apply nth_upd_other; auto]. }
+  constructor; unfold mid, tk, act, cur_items, cur_end in *; cbn [m_srcs m_active m_tasks m_phase m_exc m_stopped m_out]; auto.
+  - rewrite !upd_len. auto.
+  - intros j Hj. rewrite T. destruct (Nat.eqb_spec j i); [subst|apply Vc; auto].
+    rewrite (Vc i Hi), Ht. reflexivity.
+  - intros j Hj. rewrite T. destruct (Nat.eqb_spec j i); [subst|apply Ve; auto].
+    destruct (Ve i Hi) as [E|(e & E)]; [left; auto|congruence].
+  - intros j e Hj. rewrite T. destruct (Nat.eqb_spec j i); [discriminate|apply Vr; auto].
+  - intros j Hj. rewrite T. destruct (Nat.eqb_spec j i); [discriminate|apply Vs; auto].
+  - intros j Hj. rewrite T, A. destruct (Nat.eqb_spec j i); [subst|apply Vi; auto].
+    intros _. destruct (Vs i Hi Ht) as [E1 E2]. repeat split; auto.
+    destruct (Ve i Hi) as [E|(e & E)]; congruence.
+Qed.
+
+(* pop the task of a completed result and yield it *)
+Lemma core_yield stop srcs0 s i v ph :
+  Core stop srcs0 s -> i < length srcs0 -> tk s i = TFinished (RItem v) ->
+  Core stop srcs0 (mkM (m_srcs s) (m_active s) (upd i TNone (m_tasks s)) ph (m_exc s) (m_stopped s) (m_out s ++ [(i, v)])).
+Proof.
+  intros HC Hi Ht. assert (Ha : act s i = true) by (eapply act_of_task; eauto; congruence).
+  destruct HC as [[L1 [L2 L3]] Vc Vt Ve Vr Vs Vi Vx Vp].
+  assert (T : forall j, nth j (upd i TNone (m_tasks s)) TNone = if j =? i then TNone else tk s j).
+  { intro j. destruct (Nat.eqb_spec j i); [subst; apply nth_upd_same; lia|apply nth_upd_other; auto]. }
+  constructor; unfold mid, tk, act, cur_items, cur_end in *; cbn [m_srcs m_active m_tasks m_phase m_exc m_stopped m_out]; auto.
+  - rewrite !upd_len. auto.
+  - intros j Hj. rewrite T, proj_app, proj_single. destruct (Nat.eqb_spec j i).
+    + subst. rewrite Nat.eqb_refl. rewrite (Vc i Hi), Ht. rewrite <- !app_assoc. reflexivity.
+    + assert (i =? j = false) by (apply Nat.eqb_neq; auto). rewrite H, app_nil_r. apply Vc; auto.
+  - intros p Hp. apply in_app_or in Hp. destruct Hp as [Hp|[<-|[]]]; auto.
+  - intros j Hj. rewrite T. destruct (Nat.eqb_spec j i); [subst|apply Ve; auto].
+    destruct (Ve i Hi) as [E|(e & E)]; [left; auto|congruence].
+  - intros j e Hj. rewrite T. destruct (Nat.eqb_spec j i); [discriminate|apply Vr; auto].
+  - intros j Hj. rewrite T. destruct (Nat.eqb_spec j i); [discriminate|apply Vs; auto].
+  - intros j Hj Hja. rewrite T. destruct (Nat.eqb_spec j i); [subst; congruence|apply Vi; auto].
+Qed.
+
+(* ---------- handle ---------- *)
+Lemma handle_inv stop srcs0 idxs : forall s completed,
+  Core stop srcs0 s -> Quiet srcs0 s -> CG srcs0 s completed -> NoDup idxs ->
+  (forall j, In j idxs -> ~ In j (map fst completed)) ->
+  let '(s1, c1) := handle stop s idxs completed in
+  Core stop srcs0 s1 /\ Quiet srcs0 s1 /\ CG srcs0 s1 c1 /\ m_phase s1 = m_phase s /\
+  (m_stopped s1 = true -> m_stopped s = true \/ stop = true).
+Proof.
+  induction idxs as [|i r IH]; intros s completed HC HQ HG Hnd Hdis; cbn [handle].
+  { split; [|split; [|split; [|split]]]; auto. }
+  apply NoDup_cons_iff in Hnd. destruct Hnd as [Hni Hnr].
+  unfold task_of_src. fold (tk s i).
+  assert (Hdis' : forall j, In j r -> ~ In j (map fst completed)) by (intros j Hj; apply Hdis; cbn; auto).
+  destruct (tk s i) as [| |[v| |e]] eqn:Ht; try (apply IH; auto; fail).
+  - (* item *)
+    destruct (Nat.ltb_spec i (length srcs0)) as [Hi|Hi].
+    2:{ exfalso. destruct (V_len _ _ _ HC) as (_ & _ & L). unfold tk in Ht. rewrite nth_overflow in Ht by lia. discriminate. }
+    apply IH; auto.
+    + destruct HG as [G1 G2]. split.
+      * rewrite map_app. cbn. apply NoDup_snoc_nat; auto. apply Hdis; cbn; auto.
+      * intros j w Hj. apply in_app_or in Hj. destruct Hj as [Hj|[[= <- <-]|[]]]; auto.
+    + intros j Hj. rewrite map_app, in_app_iff. cbn. intros [H|[<-|[]]]; [eapply Hdis'; eauto|auto].
+  - (* StopAsyncIteration *)
+    destruct (Nat.ltb_spec i (length srcs0)) as [Hi|Hi].
+    2:{ exfalso. destruct (V_len _ _ _ HC) as (_ & _ & L). unfold tk in Ht. rewrite nth_overflow in Ht by lia. discriminate. }
+    destruct stop.
+    + split; [|split; [|split; [|split]]]; auto.
+      eapply core_same; eauto; cbn; auto.
+    + match goal with |- let '(_, _) := handle _ ?s' _ _ in _ => specialize (IH s' completed) end.
+      destruct (V_len _ _ _ HC) as (L1 & L2 & L3).
+      assert (T : forall j, tk (mkM (m_srcs s) (upd i false (m_active s)) (upd i TNone (m_tasks s)) (m_phase s) (m_exc s) (m_stopped s) (m_out s)) j
+                  = if j =? i then TNone else tk s j).
+      { intro j. unfold tk; cbn [m_tasks]. destruct (Nat.eqb_spec j i); [subst; apply nth_upd_same; lia|apply nth_upd_other; auto]. }
+      apply IH; auto.
+      * apply core_remove; auto.
+      * intros j Hj. rewrite T. unfold act; cbn [m_active]. destruct (Nat.eqb_spec j i).
+        -- subst. intros _. apply nth_upd_same. lia.
+        -- intro H. rewrite nth_upd_other by auto. apply HQ; auto.
+      * destruct HG as [G1 G2]. split; auto. intros j w Hj. destruct (G2 j w Hj) as [a b]. split; auto.
+        rewrite T. destruct (Nat.eqb_spec j i); auto. subst. congruence.
+  - (* error *)
+    destruct (Nat.ltb_spec i (length srcs0)) as [Hi|Hi].
+    2:{ exfalso. destruct (V_len _ _ _ HC) as (_ & _ & L). unfold tk in Ht. rewrite nth_overflow in Ht by lia. discriminate. }
+    split; [|split; [|split; [|split]]]; auto.
+    eapply core_same; eauto; cbn; auto; intros e' [= <-]; right; exists i; split; auto; eapply V_err; eauto.
+Qed.
+
+(* ---------- yield / loop condition ---------- *)
+Lemma loop_check_inv stop srcs0 s : Core stop srcs0 s -> Quiet srcs0 s -> MInv stop srcs0 (loop_check s).
+Proof.
+  intros HC HQ. unfold loop_check.
+  destruct (has_task s) eqn:Hh; destruct (m_exc s) eqn:He; destruct (m_stopped s) eqn:Hs; cbn [andb negb];
+    (constructor; [eapply core_same; eauto; cbn; rewrite ?He, ?Hs; auto | intros i Hi Ht; left; apply HQ; auto
+                  | cbn; discriminate | cbn; rewrite ?He, ?Hs; try discriminate; auto | cbn; try discriminate; auto]);
+    intros _; right; left; discriminate.
+Qed.
+
+Lemma yield_next_inv stop srcs0 s completed :
+  Core stop srcs0 s -> Quiet srcs0 s -> CG srcs0 s completed -> MInv stop srcs0 (yield_next s completed).
+Proof.
+  intros HC HQ [G1 G2]. destruct completed as [|[i v] rest]; [apply loop_check_inv; auto|].
+  cbn [yield_next]. destruct (G2 i v ltac:(cbn; auto)) as [Hi Ht].
+  destruct (V_len _ _ _ HC) as (L1 & L2 & L3).
+  assert (T : forall j, tk (mkM (m_srcs s) (m_active s) (upd i TNone (m_tasks s)) (PYield i rest) (m_exc s) (m_stopped s) (m_out s ++ [(i, v)])) j
+              = if j =? i then TNone else tk s j).
+  { intro j. unfold tk; cbn [m_tasks]. destruct (Nat.eqb_spec j i); [subst; apply nth_upd_same; lia|apply nth_upd_other; auto]. }
+  cbn in G1. apply NoDup_cons_iff in G1. destruct G1 as [Hni Hnd].
+  constructor.
+  - apply core_yield; auto.
+  - intros j Hj. rewrite T. destruct (Nat.eqb_spec j i); [subst; intros _; right; cbn; eauto|]. intro H. left. apply HQ; auto.
+  - intros cur rest' [= <- <-]. repeat split; auto.
+    + rewrite T, Nat.eqb_refl. reflexivity.
+    + apply (G2 j v0). cbn; auto.
+    + rewrite T. destruct (Nat.eqb_spec j i).
+      * subst. exfalso. apply Hni. apply in_map_iff. exists (i, v0). auto.
+      * apply (G2 j v0). cbn; auto.
+  - cbn. discriminate.
+  - cbn. discriminate.
+Qed.
+
+(* ---------- wake ---------- *)
+Lemma done_order_spec s order :
+  NoDup (done_order s order) /\ forall j, In j (done_order s order) -> is_finished (tk s j) = true.
+Proof.
+  unfold done_order. set (fin := fun i => is_finished (task_of_src s i)).
+  set (named := nodup Nat.eq_dec (filter fin order)). split.
+  - apply NoDup_app_nat.
+    + apply NoDup_nodup.
+    + apply NoDup_filter, seq_NoDup.
+    + intros j H1 H2. apply filter_In in H2. destruct H2 as [_ H2]. apply andb_true_iff in H2.
+      destruct H2 as [_ H2]. apply negb_true_iff in H2.
+      assert (existsb (Nat.eqb j) named = true) by (apply existsb_exists; exists j; split; auto; apply Nat.eqb_refl).
+      congruence.
+  - intros j Hj. apply in_app_or in Hj. destruct Hj as [Hj|Hj].
+    + apply nodup_In in Hj. apply filter_In in Hj. apply Hj.
+    + apply filter_In in Hj. destruct Hj as [_ Hj]. apply andb_true_iff in Hj. apply Hj.
+Qed.
+
+Lemma core_phase stop srcs0 s p : Core stop srcs0 s -> Core stop srcs0 (set_phase s p).
+Proof. intro HC. eapply core_same; eauto. Qed.
+
+Lemma wake_inv stop srcs0 s order : MInv stop srcs0 s -> MInv stop srcs0 (wake stop s order).
+Proof.
+  intros HI. pose proof HI as [HC Vn Vr Ve Vw]. unfold wake. destruct (m_phase s) eqn:Hp; auto.
+  destruct (done_order s order) as [|i0 r0] eqn:Hd; auto.
+  destruct (done_order_spec s order) as [Hnd Hfin]. rewrite Hd in Hnd, Hfin.
+  assert (HQ : Quiet srcs0 s).
+  { intros j Hj Ht. destruct (Vn j Hj Ht) as [H|(rest & H)]; auto. congruence. }
+  pose proof (handle_inv stop srcs0 (i0 :: r0) s [] HC HQ) as H.
+  destruct (handle stop s (i0 :: r0) []) as [s1 c1].
+  destruct H as (HC1 & HQ1 & HG1 & Hp1 & Hs1); auto.
+  { split; [constructor|]. intros j v []. }
+  destruct (m_stopped s1) eqn:Hst.
+  - constructor; cbn; try discriminate; auto.
+    + apply core_phase; auto.
+    + intros j Hj Ht. left. apply HQ1; auto.
+  - apply yield_next_inv; auto.
+Qed.
+
+(* ---------- next ---------- *)
+Lemma next_inv stop srcs0 s : MInv stop srcs0 s -> MInv stop srcs0 (next s).
+Proof.
+  intros HI. pose proof HI as [HC Vn Vr Ve Vw]. unfold next. destruct (m_phase s) as [|i rest|] eqn:Hp; auto.
+  destruct (Vr i rest eq_refl) as (Hi & Ht & Hni & Hnd & Hrest).
+  destruct (V_len _ _ _ HC) as (L1 & L2 & L3).
+  fold (act s i). destruct (act s i) eqn:Ha.
+  - assert (T : forall j, tk (set_tasks s (upd i TRunning (m_tasks s))) j = if j =? i then TRunning else tk s j)
+      by (intro j; apply tk_set_tasks; lia).
+    apply yield_next_inv.
+    + apply core_task_only; auto; try discriminate.
+      * unfold mid. rewrite Ht. reflexivity.
+      * intros (e & E). congruence.
+    + intros j Hj. rewrite T. destruct (Nat.eqb_spec j i); [discriminate|]. intro H.
+      destruct (Vn j Hj H) as [A|(rest' & A)]; auto. congruence.
+    + split; auto. intros j v Hj. destruct (Hrest j v Hj) as [a b]. split; auto.
+      rewrite T. destruct (Nat.eqb_spec j i); auto. subst. exfalso. apply Hni. apply in_map_iff. exists (i, v). auto.
+  - apply yield_next_inv; auto.
+    + intros j Hj H. destruct (Vn j Hj H) as [A|(rest' & A)]; auto. congruence.
+    + split; auto.
+Qed.
+
+Lemma mstep_inv stop srcs0 s c : MInv stop srcs0 s -> MInv stop srcs0 (mstep stop s c).
+Proof. destruct c; cbn; [apply finish_inv | apply wake_inv | apply next_inv]. Qed.
+
+Lemma mexec_inv stop srcs0 sched : forall s, MInv stop srcs0 s -> MInv stop srcs0 (mexec stop s sched).
+Proof. induction sched as [|c r IH]; cbn; auto. intros s H. apply IH, mstep_inv; auto. Qed.
+
+Theorem merge_reachable_inv stop srcs0 sched : MInv stop srcs0 (mexec stop (minit srcs0) sched).
+Proof. apply mexec_inv, minit_inv. Qed.
+
+(* =====================  theorems: merge_generators  ===================== *)
+Definition mreach (stop : bool) (srcs0 : list src) (sched : list mchoice) : mst := mexec stop (minit srcs0) sched.
+
+(* at every moment, under every schedule, in both modes: what has been yielded from source i is a
+   prefix of its items (order preserved, nothing duplicated or invented) *)
+Lemma merge_prefix stop srcs0 sched i :
+  i < length srcs0 ->
+  exists rest, s_items (nth i srcs0 src_dflt) = proj i (m_out (mreach stop srcs0 sched)) ++ rest.
+Proof.
+  intro Hi. pose proof (merge_reachable_inv stop srcs0 sched) as [HC _ _ _ _].
+  eexists. apply (V_cons _ _ _ HC i Hi).
+Qed.
+
+Lemma merge_tags stop srcs0 sched p :
+  In p (m_out (mreach stop srcs0 sched)) -> fst p < length srcs0.
+Proof. pose proof (merge_reachable_inv stop srcs0 sched) as [HC _ _ _ _]. apply (V_tags _ _ _ HC). Qed.
+
+(* default mode, generator finished without raising: every item of every input exactly once, no
+   source had an error pending *)
+Lemma merge_complete srcs0 sched :
+  let s := mreach false srcs0 sched in
+  m_phase s = PEnd -> m_exc s = None ->
+  forall i, i < length srcs0 ->
+    proj i (m_out s) = s_items (nth i srcs0 src_dflt) /\ s_end (nth i srcs0 src_dflt) = None.
+Proof.
+  intros s Hp Hx i Hi. pose proof (merge_reachable_inv false srcs0 sched) as [HC Vn Vr Ve Vw]. fold (mreach false srcs0 sched) in *. fold s in HC, Vn, Vr, Ve, Vw.
+  assert (Ht : tk s i = TNone).
+  { destruct (Ve Hp) as [H|[H|H]]; [apply has_task_false; auto|congruence|].
+    pose proof (V_stopped _ _ _ HC H). discriminate. }
+  destruct (Vn i Hi Ht) as [Ha|(rest & H)]; [|congruence].
+  destruct (V_inact _ _ _ HC i Hi Ha) as (E1 & E2 & _).
+  pose proof (V_cons _ _ _ HC i Hi) as Hc. unfold mid in Hc. rewrite Ht, E1 in Hc. cbn in Hc. rewrite app_nil_r in Hc.
+  split; auto.
+Qed.
+
+(* an input's error is re-raised: the generator cannot end normally while a source has an error
+   to raise, and what it raises is the error of one of its sources *)
+Lemma merge_error srcs0 sched :
+  let s := mreach false srcs0 sched in
+  m_phase s = PEnd ->
+  ((exists i e, i < length srcs0 /\ s_end (nth i srcs0 src_dflt) = Some e) -> m_exc s <> None) /\
+  (forall e, m_exc s = Some e -> exists i, i < length srcs0 /\ s_end (nth i srcs0 src_dflt) = Some e).
+Proof.
+  intros s Hp. split.
+  - intros (i & e & Hi & He) Hx. destruct (merge_complete srcs0 sched Hp Hx i Hi) as [_ H]. congruence.
+  - pose proof (merge_reachable_inv false srcs0 sched) as [HC _ _ _ _]. apply (V_exc _ _ _ HC).
+Qed.
+
+(* =====================  theorems: debounced_sorted_prefix  ===================== *)
+Section SortFacts.
+  Variable kf : Z -> Z.
+  Definition le_key (a b : Z) : Prop := (kf a <= kf b)%Z.
+
+  Lemma insert_perm x l : Permutation (insert_by kf x l) (x :: l).
+  Proof.
+    induction l as [|y r IH]; cbn; auto. destruct (kf x <? kf y)%Z; auto.
+    rewrite IH. apply perm_swap.
+  Qed.
+
+  Lemma fold_insert_perm l : forall acc, Permutation (fold_left (fun a x => insert_by kf x a) l acc) (acc ++ l).
+  Proof.
+    induction l as [|x r IH]; intro acc; cbn; [rewrite app_nil_r; auto|].
+    rewrite IH. rewrite insert_perm. cbn. apply Permutation_middle.
+  Qed.
+
+  Lemma sort_perm l : Permutation (sort_by kf l) l.
+  Proof. unfold sort_by. apply (fold_insert_perm l []). Qed.
+
+  Lemma insert_sorted x l : Sorted le_key l -> Sorted le_key (insert_by kf x l).
+  Proof.
+    induction 1 as [|y r Hs IH Hh]; cbn; [repeat constructor|].
+    destruct (Z.ltb_spec (kf x) (kf y)).
+    - constructor; [constructor; auto|]. constructor. unfold le_key. lia.
+    - constructor; auto. destruct r as [|z r']; cbn in *.
+      + constructor. unfold le_key. lia.
+      + inversion Hh; subst. destruct (Z.ltb_spec (kf x) (kf z)); constructor; unfold le_key in *; lia.
+  Qed.
+
+  Lemma sort_sorted l : Sorted le_key (sort_by kf l).
+  Proof.
+    unfold sort_by. assert (G : forall acc, Sorted le_key acc -> Sorted le_key (fold_left (fun a x => insert_by kf x a) l acc)).
+    { induction l as [|x r IH]; intros acc H; cbn; auto. apply IH, insert_sorted; auto. }
+    apply G. constructor.
+  Qed.
+
+  (* the repaired consumer: everything before the marker is buffered, the marker flushes the buffer
+     sorted, everything after is passed through *)
+  Definition val (x : nat * Z * bool) : Z := snd (fst x).
+  Definition from0 (x : nat * Z * bool) : Prop := fst (fst x) = 0.
+
+  Lemma consume_buffer pre : forall buf r, Forall from0 pre ->
+    consume kf true false buf (pre ++ r) = consume kf true false (buf ++ map val pre) r.
+  Proof.
+    induction pre as [|[[i v] sg] pre IH]; intros buf r H; cbn; [rewrite app_nil_r; auto|].
+    inversion H as [|? ? H0 H1]; subst. unfold from0 in H0; cbn in H0. subst i. cbn.
+    rewrite IH by auto. rewrite <- app_assoc. reflexivity.
+  Qed.
+
+  Lemma consume_pass post : forall buf, Forall from0 post -> consume kf true true buf post = map val post.
+  Proof.
+    induction post as [|[[i v] sg] post IH]; intros buf H; cbn; auto.
+    inversion H as [|? ? H0 H1]; subst. unfold from0 in H0; cbn in H0. subst i. cbn. rewrite IH; auto.
+  Qed.
+
+  Lemma consume_spec pre c sg post : Forall from0 pre -> Forall from0 post ->
+    consume kf true false [] (pre ++ (1, c, sg) :: post) = sort_by kf (map val pre) ++ map val post.
+  Proof.
+    intros H1 H2. rewrite consume_buffer by auto. cbn. rewrite consume_pass by auto. reflexivity.
+  Qed.
+End SortFacts.
+
+(* a merged stream of sources 0 and 1 in which source 1 contributed exactly [c] *)
+Lemma split_at_marker (out : list (nat * Z)) c :
+  (forall p, In p out -> fst p < 2) -> proj 1 out = [c] ->
+  exists pre post, out = pre ++ (1, c) :: post /\
+    Forall (fun p => fst p = 0) pre /\ Forall (fun p => fst p = 0) post /\
+    proj 0 out = map snd pre ++ map snd post.
+Proof.
+  induction out as [|[i v] out IH]; intros Ht Hp; [discriminate|].
+  assert (Hi : i < 2) by (apply (Ht (i, v)); cbn; auto).
+  assert (Ht' : forall p, In p out -> fst p < 2) by (intros p Hp'; apply Ht; cbn; auto).
+  destruct i as [|[|i]]; [| |lia].
+  - unfold proj in Hp; cbn in Hp. fold (proj 1 out) in Hp.
+    destruct (IH Ht' Hp) as (pre & post & -> & F1 & F2 & E).
+    exists ((0, v) :: pre), post. repeat split; auto.
+    unfold proj in *; cbn. f_equal. exact E.
+  - unfold proj in Hp; cbn in Hp. fold (proj 1 out) in Hp. injection Hp as -> Hp.
+    exists [], out. assert (F : Forall (fun p => fst p = 0) out).
+    { apply Forall_forall. intros [j w] Hj. specialize (Ht' _ Hj). cbn in *.
+      destruct j as [|[|j]]; auto; [|lia]. exfalso.
+      assert (In w (proj 1 out)) by (unfold proj; apply in_map_iff; exists (1, w); split; auto; apply filter_In; auto).
+      rewrite Hp in H. destruct H. }
+    repeat split; auto. unfold proj; cbn. fold (proj 0 out). clear -F.
+    induction out as [|[j w] out IH]; cbn; auto. inversion F; subst. cbn in *. subst j. cbn. f_equal. apply IH; auto.
+Qed.
+
+Lemma dsp_sorted_prefix kf inner sched :
+  let s := dsp_run kf (mkSrc inner None) sched in
+  m_phase s = PEnd ->
+  exists burst later, inner = burst ++ later /\ dsp_output kf (m_out s) = sort_by kf burst ++ later.
+Proof.
+  intros s Hp. set (srcs0 := [mkSrc inner None; mkSrc [complete_marker] None]).
+  assert (Hx : m_exc s = None).
+  { destruct (m_exc s) as [e|] eqn:E; auto. exfalso.
+    destruct (merge_error srcs0 sched Hp) as [_ H]. destruct (H e E) as (i & Hi & He).
+    destruct i as [|[|i]]; cbn in *; try discriminate; lia. }
+  destruct (merge_complete srcs0 sched Hp Hx 0 ltac:(cbn; lia)) as [P0 _].
+  destruct (merge_complete srcs0 sched Hp Hx 1 ltac:(cbn; lia)) as [P1 _].
+  cbn in P0, P1. fold s in P0, P1.
+  destruct (split_at_marker (m_out s) complete_marker) as (pre & post & E & F1 & F2 & E0); auto.
+  { intros p Hin. apply (merge_tags false srcs0 sched p Hin). }
+  change (mreach false srcs0 sched) with s in P0, P1.
+  exists (map snd pre), (map snd post). split; [congruence|].
+  unfold dsp_output. rewrite E, map_app. cbn [map fst snd].
+  rewrite (consume_spec kf); [rewrite !map_map; reflexivity| |];
+    apply Forall_forall; intros x Hx'; apply in_map_iff in Hx'; destruct Hx' as (p & <- & Hp');
+    unfold from0; cbn; [eapply Forall_forall in F1|eapply Forall_forall in F2]; eauto.
+Qed.
+
+(* the original code (flag_fix = false) could yield a later item before the sorted burst: the item
+   is consumed when `is_complete` is already true but "__COMPLETE__" has not been consumed yet *)
+Lemma dsp_old_code_refuted :
+  let stream := [(0, 1%Z, false); (0, 5%Z, false); (0, 2%Z, true); (1, complete_marker, true)] in
+  let out := consume (fun v => v) false false [] stream in
+  out = [2%Z; 1%Z; 5%Z] /\
+  forall burst later, [1%Z; 5%Z; 2%Z] = burst ++ later -> out <> sort_by (fun v => v) burst ++ later.
+Proof.
+  cbn. split; auto. intros burst later H.
+  destruct burst as [|a burst]; cbn in H; [subst; vm_compute; discriminate|].
+  injection H as <- H. destruct burst as [|b burst]; cbn in H; [subst; vm_compute; discriminate|].
+  injection H as <- H. destruct burst as [|c burst]; cbn in H; [subst; vm_compute; discriminate|].
+  injection H as <- H. destruct burst; cbn in H; [subst; vm_compute; discriminate|discriminate].
+Qed.
+
+Lemma sort_spec kf l : Permutation (sort_by kf l) l /\ Sorted (fun a b => (kf a <= kf b)%Z) (sort_by kf l).
+Proof. exact (conj (sort_perm kf l) (sort_sorted kf l)). Qed.
